@@ -678,10 +678,20 @@ func writeEvidence(cr *checkRun, prop, tier string, seed, discharged, violations
 		}
 	}
 	kn := sortedKeys(known)
+	confirmed, unconfirmed := 0, 0
+	for _, o := range cr.obls {
+		if o.Tags != nil && o.Tags["unsat_confirmations"] != "" {
+			if o.Tags["unsat_confirmations"] == "1" {
+				unconfirmed++
+			} else {
+				confirmed++
+			}
+		}
+	}
 	cov := map[string]interface{}{
 		"obligations":              len(cr.obls),
 		"discharged":               discharged,
-		"checker_cmd":              fmt.Sprintf("/verif/bin/govc check -prop %s -tier %s (z3-new -T:%d | /usr/bin/z3 | cvc5 --enum-inst per obligation)", prop, tier, cr.timeout),
+		"checker_cmd":              fmt.Sprintf("/verif/bin/govc check -prop %s -tier %s (per obligation: z3-new alone 6 s, then lean / ground / lambda / focused / full renderings raced on z3-new 5.1, z3 4.8.12, cvc5 1.0 (--enum-inst, --solve-bv-as-int) and, on quantifier-free renderings only, z3-new smt.bv.solver=2; full-rendering timeout %d s; thorough: a second solver re-proves every discharged rendering)", prop, tier, cr.timeout),
 		"trusted_base":             tb,
 		"functions_under_contract": cr.funcs,
 		"abstracted":               sortedKeys(cr.abstracted),
@@ -689,6 +699,7 @@ func writeEvidence(cr *checkRun, prop, tier string, seed, discharged, violations
 		"solver_obligations":       solverCount,
 		"solver_seconds":           solverTime,
 		"solver_disagreements":     disagreements,
+		"second_solver":            map[string]int{"confirmed": confirmed, "not_confirmed_within_30s": unconfirmed},
 		"vacuity":                  vacuity,
 		"samples":                  samples,
 		"known_findings_matched":   kn,
